@@ -182,7 +182,7 @@ class MemPrims:
         if short in ("position", "rposition") and "Iterator" in (t["f"].get("def") or name) and len(args) == 2 and \
                 "MemoryArea" in " ".join(t["f"].get("gargs", [])):
             # like find, but the index of the matching area is returned: Some(idx) with the predicate assumed, or None
-            outs = self.find(I, path, frame, t, args)
+            outs = self.find(I, path, frame, t, args, by_ref=False)
             if outs is None:
                 return None
             res = []
@@ -213,6 +213,8 @@ class MemPrims:
                 path.events.append(("iter_next", "some", ("range", rg[3][1])))
                 p2.events.append(("iter_next", "none", ("range", rg[3][1])))
                 return [(A.SOME(A.W(("enum_idx",), 64)), path), (A.NONE, p2)]
+        if short == "next" and "Iterator" in (t["f"].get("def") or name) and args and I._deref_all(path, args[0])[0] == "citer":
+            return None  # known elements: iterated exactly by the interpreter
         if short == "next" and "Iterator" in (t["f"].get("def") or name):
             # slice / vec iterators over the area list: Some(the symbolic area) | None
             g = " ".join(t["f"].get("gargs", []))
@@ -228,6 +230,11 @@ class MemPrims:
         if short in ("deref", "deref_mut", "as_slice", "as_mut_slice") and args and ("Vec" in name or "slice" in name):
             return [(args[0], path)]  # a view of the same storage: no effect of its own
         if short in ("iter", "iter_mut", "into_iter", "enumerate", "rev") and args:
+            v_ = I._deref_all(path, args[0])
+            while v_[0] == "deref" and isinstance(v_[1], tuple):
+                v_ = v_[1]
+            if (v_[0] == "agg" and v_[1] == "array") or v_[0] == "citer":
+                return None  # a literal array / known elements: the interpreter iterates it exactly
             return [(("iter", self_norm(I, path, args[0])), path)]
         if short == "next" and "Iterator" in (t["f"].get("def") or name) and args:
             # any other slice / vector iterator: Some(element) | None; a Some means the iterated vector is not empty
@@ -279,6 +286,11 @@ class MemPrims:
             a0 = args[0]
             if a0[0] == "iter":
                 return [(a0, path)]
+            v_ = I._deref_all(path, a0)
+            while v_[0] == "deref" and isinstance(v_[1], tuple):
+                v_ = v_[1]
+            if v_[0] == "agg" and v_[1] == "array":
+                return None  # a literal slice of areas (e.g. `&[]`), not the machine's list: its elements are known
             n = path.tags.get("iter_n", 0)
             path.tags["iter_n"] = n + 1
             return [(("iter", self_norm(I, path, a0), ("inst", n)), path)]
@@ -286,6 +298,8 @@ class MemPrims:
             return [(("iter", args[0], short), path)]
         if short == "next" and isiter and args:
             it = I._deref_all(path, args[0])
+            if it[0] == "citer":
+                return None
             inst, rev = self.inst_of(it)
             if inst is None:
                 path.tags["list_unsupported"] = "next on %s" % (A.show(it)[:60],)
@@ -348,8 +362,11 @@ class MemPrims:
             envl = ("L", ("find-env", frame.fid, t["sp"], pos), 0)
             p.store[envl] = clos
             itl = ("L", ("find-item", frame.fid, t["sp"], pos), 0)
-            p.store[itl] = area_ref(mut)
-            item = ("ref", (itl, ()), False) if want == "find" else area_ref(mut)
+            elem = area_ref(mut)
+            if "Enumerate" in " ".join(t["f"].get("gargs", [])):
+                elem = ("agg", "tuple", None, (A.INT(k, 64), elem))
+            p.store[itl] = elem
+            item = ("ref", (itl, ()), False) if want == "find" else elem
             for o in I.call_body(cb, [("ref", (envl, ()), True), item], p, frame, frame.depth + 1):
                 if o.kind != "return":
                     outs.append(("panic", o.cls, o.msg or "find predicate", o.path))
@@ -368,11 +385,12 @@ class MemPrims:
                 o.path.events.append(("find", "some"))
                 if want == "find" and mut:
                     o.path.events.append(("area_handout", k, True))
-                outs.append((A.SOME(area_ref(mut) if want == "find" else A.INT(k, 64)), o.path))
+                outs.append((A.SOME(elem if want == "find" else A.INT(k, 64)), o.path))
         return outs
 
-    def find(self, I, path, frame, t, args):
-        """Iterator::find(pred): None, or Some(area) with pred(area) assumed true."""
+    def find(self, I, path, frame, t, args, by_ref=True):
+        """Iterator::find(pred): None, or Some(area) with pred(area) assumed true. find hands the predicate a reference
+        to the item (&&MemoryArea), position the item itself."""
         outs = []
         p_none = path.copy()
         p_none.events.append(("find", "none"))
@@ -388,8 +406,12 @@ class MemPrims:
         envl = ("L", ("find-env", frame.fid, t["sp"]), 0)
         path.store[envl] = clos
         itl = ("L", ("find-item", frame.fid, t["sp"]), 0)
-        path.store[itl] = area_ref(mut)
-        res = I.call_body(cb, [("ref", (envl, ()), True), ("ref", (itl, ()), False)], path, frame, frame.depth + 1)
+        elem = area_ref(mut)
+        if "Enumerate" in " ".join(t["f"].get("gargs", [])):
+            elem = ("agg", "tuple", None, (A.W(("enum_idx",), 64), elem))
+        path.store[itl] = elem
+        res = I.call_body(cb, [("ref", (envl, ()), True), ("ref", (itl, ()), False) if by_ref else elem], path, frame,
+                          frame.depth + 1)
         for o in res:
             if o.kind != "return":
                 outs.append(("panic", o.cls, o.msg or "find predicate", o.path))
@@ -401,7 +423,7 @@ class MemPrims:
                 # undecided predicate: assume true on this branch
                 I.assume_cond(o.path, o.value, 1)
             o.path.events.append(("find", "some"))
-            outs.append((A.SOME(area_ref(mut)), o.path))
+            outs.append((A.SOME(elem), o.path))
         return outs
 
 
